@@ -137,6 +137,7 @@ def order(
     all_tasks = False
     n_removed_leaves = 0
     requires_data_task = defaultdict(set)
+    n_parked: dict[Key, int] = {}
 
     while not all_tasks:
         all_tasks = True
@@ -157,6 +158,22 @@ def order(
                 else:
                     result[leaf] = prio
                 n_removed_leaves += 1
+                # Data nodes that were parked on this leaf (see below) and have
+                # no other dependent left would never be assigned a priority
+                for root in requires_data_task.pop(leaf, ()):
+                    n_parked[root] -= 1
+                    if not n_parked[root]:
+                        prio = (
+                            expected_len
+                            - len(external_keys)
+                            - 1
+                            - n_removed_leaves
+                        )
+                        if return_stats:
+                            result[root] = Order(prio, -1)
+                        else:
+                            result[root] = prio
+                        n_removed_leaves += 1
                 leaf_nodes.remove(leaf)
                 for dep in dependencies[leaf]:
                     dependents[dep].remove(leaf)
@@ -175,6 +192,7 @@ def order(
                 del dependencies[root]
                 root_nodes.remove(root)
                 del dependents[root]
+                n_parked[root] = len(deps_root)
                 for dep in deps_root:
                     requires_data_task[dep].add(root)
                     if not dependencies[dep]:
